@@ -182,6 +182,96 @@ fn bfs(st: &Stats, name: &str, max_depth: Option<u32>, state_cap: usize) {
     }
 }
 
+fn ring_revisits_a_vertex(mp: &MP) -> bool {
+    for r in mp_rings(mp) {
+        let n = r.0.len();
+        if n < 2 {
+            continue;
+        }
+        let mut v: Vec<(u64, u64)> = r.0[..n - 1].iter().map(|c| (c.x.to_bits(), c.y.to_bits())).collect();
+        v.sort();
+        let before = v.len();
+        v.dedup();
+        if v.len() != before {
+            return true;
+        }
+    }
+    false
+}
+
+/// Bounded feedback pass on a family whose fixpoint is out of reach of the quick tier: every depth-1 result
+/// whose rings are *not simple* (the implementation traces a hole or notch that touches the boundary in a
+/// vertex inline, so the ring passes through that vertex twice) is fed back in against every initial operand,
+/// on either side, for all four operations.
+fn pinched_feedback(st: &Stats, name: &str) {
+    let fam = Family::new(name);
+    let n = fam.cx.noperands();
+    let mut index: HashMap<Vec<u64>, ()> = HashMap::new();
+    let firsts: Vec<Vec<(MP, u32, Value)>> = (0..n)
+        .into_par_iter()
+        .map(|a| {
+            let mut out = vec![];
+            for b in 0..n {
+                for op in OPS {
+                    if let Ok(r) = call(&fam.m[a as usize], &fam.m[b as usize], op).res {
+                        if ring_revisits_a_vertex(&r) {
+                            let e = json!({"op": op_name(op), "x": {"init": {"enc": "M", "mask": a}}, "y": {"init": {"enc": "M", "mask": b}}});
+                            out.push((r, model(a, b, op), e));
+                        }
+                    }
+                }
+            }
+            out
+        })
+        .collect();
+    let mut pinched: Vec<(MP, u32, Value)> = vec![];
+    let mut t1 = 0u64;
+    for v in firsts {
+        for (r, m, e) in v {
+            let k = key_of(&r);
+            if !index.contains_key(&k) {
+                index.insert(k, ());
+                pinched.push((r, m, e));
+            }
+        }
+    }
+    t1 += n as u64 * n as u64 * 4;
+    let t2 = std::sync::atomic::AtomicU64::new(0);
+    pinched.par_iter().for_each(|(x, mx, ex)| {
+        let mut loc = Local::default();
+        for b in 0..n {
+            let y = &fam.m[b as usize];
+            for op in OPS {
+                for side in 0..2 {
+                    let (r, want) = if side == 0 { (call(x, y, op).res, model(*mx, b, op)) } else { (call(y, x, op).res, model(b, *mx, op)) };
+                    loc.transitions += 1;
+                    for c in judge(&fam, &r, want, op) {
+                        let yi = json!({"init": {"enc": "M", "mask": b}});
+                        let e = if side == 0 { json!({"op": op_name(op), "x": ex, "y": yi}) } else { json!({"op": op_name(op), "x": yi, "y": ex}) };
+                        loc.violation(&c, format!("{name}:{}", e), json!({"prop": "C11", "kind": "chain", "family": name, "expr": e}));
+                    }
+                }
+            }
+        }
+        t2.fetch_add(loc.transitions, std::sync::atomic::Ordering::Relaxed);
+        loc.transitions = 0;
+        st.merge(&loc);
+    });
+    st.states.fetch_add(pinched.len() as u64, std::sync::atomic::Ordering::Relaxed);
+    st.nontrivial.fetch_add(pinched.len() as u64, std::sync::atomic::Ordering::Relaxed);
+    st.trans(t1 + t2.load(std::sync::atomic::Ordering::Relaxed));
+    st.family(&format!(
+        "{name}: feedback of non-simple results: {} distinct depth-1 results whose rings pass twice through a vertex (of {} first-level calls), each combined with all {} initial operands on either side x 4 operations ({} transitions)",
+        pinched.len(),
+        t1,
+        n,
+        t2.load(std::sync::atomic::Ordering::Relaxed)
+    ));
+    if let Some((r, m, e)) = pinched.first() {
+        st.sample(json!({"family": name, "non_simple_result_fed_back": hex(r), "mask": m, "reached_by": e}));
+    }
+}
+
 /// float clause: (A op B) op' C and C op' (A op B) with an independent third operand
 fn float_triples(st: &Stats, thorough: bool) {
     let spec = p_spec(9, st.seed, 1.0, false);
@@ -311,6 +401,7 @@ pub fn run(tier: &str) -> i32 {
     let thorough = tier == "thorough";
     bfs(&st, "G22", None, 100_000);
     bfs(&st, "G32", None, 100_000);
+    pinched_feedback(&st, "G33");
     if thorough {
         bfs(&st, "G23", None, 100_000);
         bfs(&st, "T22", None, 100_000);
